@@ -836,7 +836,7 @@ func ruleUnitClamp(c *Ctx) {
 					}
 				}
 				sl := backSlice(cv.X)
-				if isLoadErrRange(sl) {
+				if isLoadErrRange(sl) || sliceReadsLoadErr(cv.X, "Range", func(ssa.Value, string) bool { return false }) {
 					n++
 					c.check(clampedConv(cv), "U-CLAMP", funcName(f), "load-error position clamped at zero", cv.Pos(),
 						"max(0, x-1) before the conversion to an unsigned protocol field",
@@ -1178,12 +1178,7 @@ func ruleLoadErrRange(c *Ctx) {
 				if !under {
 					continue
 				}
-				fromLoadErr := false
-				for v := range backSlice(st.Val) {
-					if isLoadErrField(v, "Range") {
-						fromLoadErr = true
-					}
-				}
+				fromLoadErr := sliceReadsLoadErr(st.Val, "Range", isLoadErrField)
 				if !fromLoadErr {
 					continue
 				}
@@ -1204,12 +1199,7 @@ func ruleLoadErrRange(c *Ctx) {
 					if !isK || k.Value == nil || k.Value.Kind() != constant.Int || k.Int64() != parseKind {
 						continue
 					}
-					kindRead := false
-					for v := range backSlice(x) {
-						if isLoadErrField(v, "Kind") {
-							kindRead = true
-						}
-					}
+					kindRead := sliceReadsLoadErr(x, "Kind", isLoadErrField)
 					if kindRead && ((bo.Op == token.NEQ && cc.Taken) || (bo.Op == token.EQL && !cc.Taken)) {
 						excluded = true
 					}
@@ -1221,4 +1211,30 @@ func ruleLoadErrRange(c *Ctx) {
 		}
 	}
 	c.census("C08-LOADERR", "diagnostics that take their range from a load error", n, 1)
+}
+
+// sliceReadsLoadErr: the slice of v reads field `name` of an include.LoadError - through a field access that is
+// part of the slice, or through a by-value parameter of that type whose field the slice depends on.
+func sliceReadsLoadErr(v ssa.Value, name string, isField func(ssa.Value, string) bool) bool {
+	sl, params := backSlicePath(v, nil)
+	for w := range sl {
+		if isField(w, name) {
+			return true
+		}
+	}
+	for p, paths := range params {
+		st, ok := p.Type().Underlying().(*types.Struct)
+		if !ok || !typeHasSuffix(p.Type(), "include.LoadError") {
+			continue
+		}
+		for _, path := range paths {
+			if len(path) == 0 {
+				return true // the whole value
+			}
+			if path[0] < st.NumFields() && st.Field(path[0]).Name() == name {
+				return true
+			}
+		}
+	}
+	return false
 }
